@@ -108,6 +108,21 @@ FailQuestions(n) ==
     UNION {(SUBSET PrefsOf(n, C)) \ {{}} : C \in CandSets(n)}
 QuietOutcomes(n, cache, db) == {o \in Outcomes(n, cache, db) : o.q = {}}
 
+\* An ERROR REPLY: the service (or something on the way to it) answers the
+\* question with a well-formed message whose response code reports an error
+\* (SERVFAIL, REFUSED, NOTIMP) and that carries no records.  It says nothing
+\* about the database.  What the check that received it tells its caller the
+\* statement leaves open -- an error, or a verdict from what is known without
+\* the asked prefixes (the reply brought no hash, so that is "not blocked"
+\* unless an unexpired entry of a prefix NOT asked holds a match) -- both are
+\* admitted.  What it must not do is remember the reply as "the service lists
+\* nothing under these prefixes": a later answer from the cache would then
+\* differ from what a fresh lookup gives although no entry was ever fetched
+\* from the database.  So, as for a failed lookup, the cache stays as it was.
+ErrReplyVerdicts(n, cache, Q) ==
+    {\E k \in C : n.h[k].p \notin Q /\ Valid(cache, n.h[k].p) /\ n.h[k] \in cache[n.h[k].p].hs :
+        C \in {C2 \in CandSets(n) : Q \subseteq PrefsOf(n, C2)}}
+
 \* The cache after the answer has been processed.  Written the way the
 \* mechanism works -- received hashes are grouped under THEIR OWN prefix
 \* (positive entries), prefixes that were asked and brought nothing back get
